@@ -12,7 +12,7 @@ Open Scope Z_scope.
 
 (* joblib/executor.py (get_memmapping_executor): does the reuse decision look at temp_folder; is the new
    TemporaryResourcesManager(temp_folder) installed on an executor that is REUSED *)
-Definition reuse_key_has_temp_folder : bool := false.
+Definition reuse_key_has_temp_folder : bool := true.
 Definition reused_executor_gets_new_manager : bool := false.
 
 Definition src_temp_folder (arg env shm : option Z) (tmpdir : Z) : option Z :=
